@@ -102,8 +102,12 @@ func (e *BaseParserError) FriendlyErrorMessage() string {
 		msg.WriteString(fmt.Sprintf("location: %s", friendlyLoc))
 	}
 	msg.WriteString("\n" + e.SourceCode() + "\n")
-	pad := strings.Repeat(" ", colStart-1)
-	msg.WriteString(pad + strings.Repeat("^", colEnd-colStart+1))
+	// A token may end on a later line than it starts on (multi-line strings),
+	// in which case its end column can be smaller than its start column
+	padWidth := max(colStart-1, 0)
+	caretWidth := max(colEnd-colStart+1, 1)
+	pad := strings.Repeat(" ", padWidth)
+	msg.WriteString(pad + strings.Repeat("^", caretWidth))
 	return msg.String()
 }
 
